@@ -364,7 +364,7 @@ func (k *Case) runColl() string {
 		}
 		items = append(items, out)
 	}
-	return strings.Join(items, ";")
+	return summary(items)
 }
 
 // ---------- property predicates evaluated on the real collections (oracle stage) ----------
@@ -568,6 +568,17 @@ func (k *Case) runProps() string {
 		}
 	}
 	return "ok"
+}
+
+// summary prefixes the items with the number of accepted mutations (histogram class)
+func summary(items []string) string {
+	n := 0
+	for _, it := range items {
+		if strings.HasPrefix(it, "ok#") {
+			n++
+		}
+	}
+	return fmt.Sprintf("ok%d:", n) + strings.Join(items, ";")
 }
 
 // ---------- generators ----------
